@@ -141,33 +141,21 @@ Definition m3_write (st : m3_hasher) (pk_part : bytes) : m3_hasher :=
   let buf3 := copy_into buf1 buf_len1 pk2 in
   {| total_len := total_len'; buf := buf3; h1 := fst h_2; h2 := snd h_2 |}.
 
-(* PartitionerHasher::finish for Murmur3PartitionerHasher *)
-Definition m3_finish (st : m3_hasher) : Z :=
-  let buf_len := N.to_nat (total_len st mod 16) in
-  let byte_at (i : nat) := sext8 (nth i (buf st) 0%N) in          (* self.buf[i] as i8 as i64 *)
-  let h1 := h1 st in
-  let h2 := h2 st in
-  let h2 :=
-    if (8 <? buf_len)%nat then
-      (* for i in (8..buf_len).rev() { k2 ^= Wrapping(byte) << ((i - 8) * 8) } *)
-      let k2 := fold_left (fun k i => Z.lxor k (wshl (byte_at i) (Z.of_nat ((i - 8) * 8))))
-                          (rev (seq 8 (buf_len - 8))) 0 in
-      let k2 := wmul k2 C2 in
-      let k2 := rotl64 k2 33 in
-      let k2 := wmul k2 C1 in
-      Z.lxor h2 k2
-    else h2 in
-  let h1 :=
-    if (0 <? buf_len)%nat then
-      (* for i in (0..min(8, buf_len)).rev() { k1 ^= Wrapping(byte) << (i * 8) } *)
-      let k1 := fold_left (fun k i => Z.lxor k (wshl (byte_at i) (Z.of_nat (i * 8))))
-                          (rev (seq 0 (Nat.min 8 buf_len))) 0 in
-      let k1 := wmul k1 C1 in
-      let k1 := rotl64 k1 31 in
-      let k1 := wmul k1 C2 in
-      Z.lxor h1 k1
-    else h1 in
-  let len := wrap64 (Z.of_N (total_len st)) in                   (* self.total_len as i64 *)
+(* PartitionerHasher::finish for Murmur3PartitionerHasher, in three pieces:
+   the two tail loops, the final mixing, and finish itself *)
+
+(* for i in (8..buf_len).rev() { k2 ^= Wrapping(self.buf[i] as i8 as i64) << ((i - 8) * 8) } *)
+Definition m3_tail_k2 (buf : bytes) (buf_len : nat) : Z :=
+  fold_left (fun k i => Z.lxor k (wshl (sext8 (nth i buf 0%N)) (Z.of_nat ((i - 8) * 8))))
+            (rev (seq 8 (buf_len - 8))) 0.
+(* for i in (0..min(8, buf_len)).rev() { k1 ^= Wrapping(self.buf[i] as i8 as i64) << (i * 8) } *)
+Definition m3_tail_k1 (buf : bytes) (buf_len : nat) : Z :=
+  fold_left (fun k i => Z.lxor k (wshl (sext8 (nth i buf 0%N)) (Z.of_nat (i * 8))))
+            (rev (seq 0 (Nat.min 8 buf_len))) 0.
+
+(* from `h1 ^= total_len` to the end of finish *)
+Definition m3_final (h1 h2 : Z) (total_len : N) : Z :=
+  let len := wrap64 (Z.of_N total_len) in                        (* self.total_len as i64 *)
   let h1 := Z.lxor h1 len in
   let h2 := Z.lxor h2 len in
   let h1 := wadd h1 h2 in
@@ -178,6 +166,26 @@ Definition m3_finish (st : m3_hasher) : Z :=
   let h2 := wadd h2 h1 in
   (* Token::new((((h2.0 as i128) << 64) | h1.0 as i128) as i64) *)
   token_new (wrap64 (Z.lor (wrap128 (Z.shiftl h2 64)) h1)).
+
+Definition m3_finish (st : m3_hasher) : Z :=
+  let buf_len := N.to_nat (total_len st mod 16) in
+  let h2' :=
+    if (8 <? buf_len)%nat then
+      let k2 := m3_tail_k2 (buf st) buf_len in
+      let k2 := wmul k2 C2 in
+      let k2 := rotl64 k2 33 in
+      let k2 := wmul k2 C1 in
+      Z.lxor (h2 st) k2
+    else h2 st in
+  let h1' :=
+    if (0 <? buf_len)%nat then
+      let k1 := m3_tail_k1 (buf st) buf_len in
+      let k1 := wmul k1 C1 in
+      let k1 := rotl64 k1 31 in
+      let k1 := wmul k1 C2 in
+      Z.lxor (h1 st) k1
+    else h1 st in
+  m3_final h1' h2' (total_len st).
 
 (* ---- CDCPartitionerHasher -------------------------------------------------------------- *)
 
@@ -329,20 +337,10 @@ Definition j_tail_k1 (b : nat -> Z) (r : nat) : Z :=
   let k1 := if (1 <=? r)%nat then jxor k1 (b 0%nat) else k1 in
   k1.
 
-(* hash3_x64_128(key, 0, length, 0): (result[0], result[1]) *)
-Definition hash3_x64_128 (key : bytes) : Z * Z :=
-  let len := List.length key in
-  let nblocks := (len / 16)%nat in                                  (* length >> 4 *)
-  let '(h1, h2) := j_body key 0 nblocks (0, 0) in
-  let offset := (nblocks * 16)%nat in
-  let r := (len mod 16)%nat in                                      (* length & 15 *)
-  let b i := j_sbyte key (offset + i) in
-  let h2 := if (9 <=? r)%nat
-            then jxor h2 (jmul (j_rotl64 (jmul (j_tail_k2 b r) j_c2) 33) j_c1) else h2 in
-  let h1 := if (1 <=? r)%nat
-            then jxor h1 (jmul (j_rotl64 (jmul (j_tail_k1 b r) j_c1) 31) j_c2) else h1 in
-  let h1 := jxor h1 (Z.of_nat len) in
-  let h2 := jxor h2 (Z.of_nat len) in
+(* the finalization: from `h1 ^= length` to the end *)
+Definition j_final (h1 h2 : Z) (len : Z) : Z * Z :=
+  let h1 := jxor h1 len in
+  let h2 := jxor h2 len in
   let h1 := jadd h1 h2 in
   let h2 := jadd h2 h1 in
   let h1 := j_fmix h1 in
@@ -350,6 +348,20 @@ Definition hash3_x64_128 (key : bytes) : Z * Z :=
   let h1 := jadd h1 h2 in
   let h2 := jadd h2 h1 in
   (h1, h2).
+
+(* hash3_x64_128(key, 0, length, 0): (result[0], result[1]) *)
+Definition hash3_x64_128 (key : bytes) : Z * Z :=
+  let len := List.length key in
+  let nblocks := (len / 16)%nat in                                     (* length >> 4 *)
+  let '(h1, h2) := j_body key 0 nblocks (0, 0) in
+  let offset := (nblocks * 16)%nat in
+  let r := (len mod 16)%nat in                                         (* length & 15 *)
+  let b i := j_sbyte key (offset + i) in
+  let h2 := if (9 <=? r)%nat
+            then jxor h2 (jmul (j_rotl64 (jmul (j_tail_k2 b r) j_c2) 33) j_c1) else h2 in
+  let h1 := if (1 <=? r)%nat
+            then jxor h1 (jmul (j_rotl64 (jmul (j_tail_k1 b r) j_c1) 31) j_c2) else h1 in
+  j_final h1 h2 (Z.of_nat len).
 
 (* Murmur3Partitioner.getToken: hash[0], then normalize (Long.MIN_VALUE -> Long.MAX_VALUE) *)
 Definition murmur3_spec (key : bytes) : Z := fst (hash3_x64_128 key).
